@@ -595,19 +595,27 @@ def blocking_flush_sync(chk, P, prefix):
                     last = decs[-1] if decs else None
                     ok = False
                     for bb, o, vals in decs:
-                        if mir.truthy(vals) is True and o[0] in ("call", "field", "local", "phi", "index") or (o[0] == "unknown"):
-                            # the flag read: a deref of the guard
-                            rr = common.roots(o)
+                        # the flag read: a deref of the mutex guard (looking through `== true`, `!`), taken on its true edge
+                        base, pos = mir.norm_bool(o)
+                        is_flag = base[0] == "call" and base[1].callee.get("name") == "deref" and "MutexGuard" in (base[1].callee.get("full") or base[1].callee.get("path") or "")
+                        t = mir.truthy(vals)
+                        if is_flag and t is not None and (t == pos):
                             ok = True
+                        elif is_flag and t is not None:
+                            ok = False      # the latest reading of the flag on this path was false
                     if not ok:
-                        return False, "wait_timeout returns true on a path that did not observe the flag", [], b.span
+                        return False, ("wait_timeout returns true on a path whose latest reading of the flag was not true (e.g. when the timeout is "
+                                       "zero or has run out): a flush would be reported complete that never was"), [], b.span
                 elif v is False:
                     # only allowed where the timeout is exhausted (Duration::ZERO comparison)
                     pass
                 elif v is None:
-                    # returns the flag value itself
+                    # returns the flag value itself: a read through a guard of the same mutex
                     if r[0] == "const":
                         return False, "returns unexpected constant", [], b.span
+                    base, pos = mir.norm_bool(r)
+                    if not (base[0] == "call" and base[1].callee.get("name") == "deref" and "MutexGuard" in (base[1].callee.get("full") or base[1].callee.get("path") or "")) or not pos:
+                        return False, "wait_timeout returns %s, not the flag" % o_str(r), [], b.span
         # the flag is only set by trigger()
         t = P.body("emit_batcher::sync::Trigger::trigger")
         writes = [s for bb, j, s in t.statements(normal_only=True) if s["k"] == "assign" and "p" in s["place"] and s["rv"]["k"] == "use"
@@ -1061,6 +1069,93 @@ def len_cmp(so):
 
 
 # ---- C09 ----------------------------------------------------------------------------------------------------------------------------------------
+
+def callbacks_consumed(chk, P, prefix):
+    """when_empty / when_flushed: on every path the callback is either invoked at once or parked in the pending batch's watcher list -
+    exactly one of the two, never neither (a lost callback leaves a blocking flush / send waiting out its whole timeout, and the
+    "invoked exactly once" clause false) and never both."""
+    for fn, park in (("when_empty", "push_on_take"), ("when_flushed", "push_on_flush")):
+        def f(fn=fn, park=park):
+            b = P.body(S + fn)
+            uses = []
+            for c in b.calls(normal_only=True):
+                nm = c.callee.get("name")
+                if nm in ("call_once", "call", "call_mut") and c.args and mir.o_is_param(mir.o_root(b.origin(c.args[0])), idx=2):
+                    uses.append(("invoke", c))
+                elif nm in ("push_on_take", "push_on_flush") and len(c.args) > 1 and \
+                        any(l[0] == "param" and l[2] == 2 for l in common.deep_roots(P, b, b.origin(c.args[1]))):
+                    uses.append(("park:" + nm, c))
+            if not any(k == "invoke" for k, c in uses) or not any(k == "park:" + park for k, c in uses):
+                return False, ("%s must either invoke its callback at once or park it with %s (found %s): a callback that is neither is lost"
+                               % (fn, park, [k for k, c in uses])), [], b.span
+            wrong = [k for k, c in uses if k.startswith("park:") and k != "park:" + park]
+            if wrong:
+                return False, "%s parks its callback with %s, not %s: it would fire on the wrong event" % (fn, wrong[0][5:], park), [], b.span
+            lo, hi = b.count_on_paths({c.bb for k, c in uses})
+            if (lo, hi) != (1, 1):
+                return False, ("%s consumes its callback %d..%d times depending on the path (expected exactly once: invoked now or parked)"
+                               % (fn, lo, hi)), [], b.span
+            return True, "", [c.loc for k, c in uses]
+        chk.ob("%s.R3:%s-consumes-callback" % (prefix, fn), "the callback is invoked at once or parked for the right event, exactly one of the two on every path", f)
+
+
+def send_or_wait_outcomes(chk, P, prefix):
+    """send_or_wait reports Ok only on the Ok edge of a try_send (the item is in the queue), and its expiry test is `elapsed() >= timeout`
+    with the item handed back (Err) on the true edge.  The elapsed callbacks its callers pass read a clock."""
+    def f():
+        b = P.body(S + "send_or_wait::{closure#0}")
+        ts = [c for c in b.calls(normal_only=True) if c.callee.get("name") == "try_send"]
+        if not ts:
+            raise mir.AnchorMissing("try_send in send_or_wait")
+        from . import c10
+        oks = [(bb, st) for bb, j, st in b.statements(normal_only=True) if st["k"] == "assign" and st["rv"]["k"] == "agg" and st["rv"].get("variant") == "Ok"
+               and (st["rv"].get("adt") or "").endswith("Result")]
+        rets = []
+        for bb, st in oks:
+            # only Ok values that flow to the coroutine's return
+            if not any(c10._q_success_guard(b, bb, t.bb) for t in ts):
+                return False, ("send_or_wait can report Ok (%s:%s) on a path that is not the Ok edge of a try_send: the item is neither in the "
+                               "queue nor handed back to the caller" % (b.file, st.get("line"))), [], "%s:%s" % (b.file, st.get("line"))
+            rets.append("%s:%s" % (b.file, st.get("line")))
+        # the expiry test
+        exp = None
+        for i, t in b.switches():
+            so = b.switch_origin(i)
+            c = mir.norm_cmp(so, lambda o: o[0] == "call" and o[1].callee.get("name") in ("call", "call_mut", "call_once"))
+            if c is not None:
+                exp = (i, c)
+        if exp is None:
+            return False, "send_or_wait has no expiry test on the elapsed time", [], b.span
+        i, (op, l, r) = exp
+        if op not in ("Ge", "Gt") or not (mir.o_root(r)[0] in ("capture", "param")):
+            return False, "the expiry test is `elapsed %s %s`, not `elapsed >= timeout`" % (op, o_str(r)), [], b.blocks[i]["term"].get("loc") or b.span
+        return True, "", rets
+    chk.ob("%s.R3:send_or_wait-outcomes" % prefix, "Ok only when a try_send succeeded; the item is handed back once elapsed() >= timeout", f)
+
+    def clocks():
+        ev = []
+        for k in ("emit_batcher::sync::blocking_send", "emit_batcher::tokio::blocking_send", "emit_batcher::tokio::send"):
+            if not P.has_body(k):
+                continue
+            for x in [P.body(k)] + P.closures_of(P.body(k)):
+                for c in x.calls(normal_only=True):
+                    if c.callee.get("name") == "send_or_wait" and len(c.args) >= 4:
+                        o = mir.o_root(x.origin(c.args[3]))
+                        if not (o[0] == "agg" and o[1].get("def") in P.bodies):
+                            return False, "%s passes %s as the elapsed-time callback" % (k, o_str(o)), [], c.loc
+                        cb = P.bodies[o[1]["def"]]
+                        reads = [c2 for c2 in cb.calls(normal_only=True) if c2.callee.get("name") in ("elapsed", "now", "duration_since")]
+                        r = cb.origin(0)
+                        if not reads or not (r[0] == "call" and any(r[1].bb == c2.bb for c2 in reads) or any(
+                                l for l in [1] if r[0] == "call" and r[1].callee.get("name") in ("elapsed", "duration_since", "saturating_duration_since"))):
+                            return False, ("the elapsed-time callback %s passes to send_or_wait returns %s, not a clock reading: the timeout "
+                                           "would never expire" % (k, o_str(r))), [], c.loc
+                        ev.append(c.loc)
+        if not ev:
+            raise mir.AnchorMissing("callers of send_or_wait")
+        return True, "", ev
+    chk.ob("%s.R3:send_or_wait-clock" % prefix, "the elapsed-time callbacks handed to send_or_wait return a clock reading", clocks)
+
 
 def lossless_variants(chk, P, prefix):
     """The blocking / fallible / async send variants never discard: none of them (nor anything they reach inside the crate) calls the
